@@ -174,7 +174,7 @@ for _n, _v in [
     ("D99.95", Decimal("99.95")), ("D1E+3", Decimal("1E+3")), ("D1E-10", Decimal("1E-10")), ("D0.000", Decimal("0.000")),
     ("DInf", Decimal("Infinity")), ("D-Inf", Decimal("-Infinity")), ("DNaN", Decimal("NaN")), ("DsNaN", Decimal("sNaN")),
     ("1j", 1j), ("2+0j", 2 + 0j),
-    ("Fraction", Fraction(1, 2)),
+    ("Fraction", Fraction(1, 2)), ("Fraction2/1", Fraction(2, 1)),
 ]:
     P(_n, const(_v), *NUMERIC)
 
